@@ -27,6 +27,10 @@ ATOMS = [
     ("s_int", lambda: "1"), ("s_float", lambda: "2.5"), ("s_true", lambda: "true"), ("s_T", lambda: "T"),
     ("s_date", lambda: "2020-01-02"), ("s_time", lambda: "01:02:03"),
     ("s_datetime", lambda: "2020-01-02 03:04:05"),
+    # ISO 8601 spellings a lenient parser (datetime.fromisoformat) would take, with a fraction / an offset
+    ("s_iso_frac", lambda: "2020-01-02T03:04:05.250000"),
+    ("s_iso_offset", lambda: "2020-01-02T03:04:05+02:00"), ("s_time_frac", lambda: "01:02:03.5"),
+    ("dt_tz", lambda: dt.datetime(2020, 1, 2, 3, 4, 5, tzinfo=dt.timezone.utc)),
     # near misses
     ("s_comma_float", lambda: "1,5"), ("s_baddate", lambda: "2020-13-01"), ("s_tru", lambda: "tru"),
     ("s_inf", lambda: "inf"), ("s_nan", lambda: "nan"), ("int2", lambda: 2), ("s_pad", lambda: " 7 "),
@@ -203,7 +207,7 @@ def alphabet(pool, level="full", history=()):
     if level == "reduced":
         atoms = [a for a in ATOM_NAMES if a in (
             "int", "true", "float", "str", "s_int", "s_float", "s_true", "s_date", "date", "datetime",
-            "time_us", "none", "empty", "l_mixed", "l_none", "l_empty_str", "s_brack", "s_tup2",
+            "time_us", "s_iso_frac", "s_iso_offset", "dt_tz", "none", "empty", "l_mixed", "l_none", "l_empty_str", "s_brack", "s_tup2",
             "s_tup3", "l_tup_empty", "ll_int", "dict", "set", "gen", "dt_for_date", "date_for_dt")]
     for a in atoms:
         ops.append(["set_values", a])
